@@ -216,7 +216,11 @@ func exactOf(g *rt.G, t Xf) (*exact.Shape, bool) {
 		out := make([]exact.P, len(ps))
 		for i, p := range ps {
 			x, y := (p[0]-t.Tx)/t.Scale, (p[1]-t.Ty)/t.Scale
-			if x != float64(int64(x)) || y != float64(int64(y)) || x > exact.MaxCoord || x < -exact.MaxCoord || y > exact.MaxCoord || y < -exact.MaxCoord {
+			lim := float64(exact.MaxCoord)
+			if g.K == "line" && len(ps) == 2 || g.K == "point" {
+				lim = 1 << 21 // segment / point cases use orientation predicates only (products stay below 2^44)
+			}
+			if x != float64(int64(x)) || y != float64(int64(y)) || x > lim || x < -lim || y > lim || y < -lim {
 				return nil, false
 			}
 			out[i] = exact.P{X: int64(x), Y: int64(y)}
